@@ -1,0 +1,88 @@
+//go:build verif
+
+package zset
+
+import "fmt"
+
+// VerifCheck validates the skiplist against the dictionary: level-0 chain sorted by
+// (score, member), backward links, tail, length, every span equal to the level-0 distance it
+// covers, header spans, level bound, and agreement with the member->score dictionary.
+func (sortedSet *SortedSet) VerifCheck() error {
+	sl := sortedSet.skiplist
+	pos := map[*node]int64{sl.header: 0}
+	var i int64
+	var prev *node
+	for n := sl.header.level[0].forward; n != nil; n = n.level[0].forward {
+		i++
+		pos[n] = i
+		if prev != nil {
+			if !(prev.Score < n.Score || (prev.Score == n.Score && prev.Member < n.Member)) {
+				return fmt.Errorf("chain not strictly ordered at rank %d", i)
+			}
+		}
+		if n.backward != prev {
+			return fmt.Errorf("backward link wrong at rank %d", i)
+		}
+		it, ok := sortedSet.dict.Get(n.Member)
+		if !ok {
+			return fmt.Errorf("skiplist member %q missing from dict", n.Member)
+		}
+		if it.Score != n.Score {
+			return fmt.Errorf("score of %q differs: dict %v skiplist %v", n.Member, it.Score, n.Score)
+		}
+		prev = n
+		if i > int64(sortedSet.dict.Len())+1_000_000 {
+			return fmt.Errorf("chain does not terminate")
+		}
+	}
+	if sl.tail != prev {
+		return fmt.Errorf("tail pointer wrong")
+	}
+	if sl.length != i {
+		return fmt.Errorf("length %d but %d nodes", sl.length, i)
+	}
+	if int64(sortedSet.dict.Len()) != i {
+		return fmt.Errorf("dict has %d members, skiplist %d", sortedSet.dict.Len(), i)
+	}
+	if sl.level < 1 || sl.level > maxLevel {
+		return fmt.Errorf("level %d out of range", sl.level)
+	}
+	for lv := int16(0); lv < sl.level; lv++ {
+		for n := sl.header; n != nil; {
+			if int(lv) >= len(n.level) {
+				return fmt.Errorf("node at rank %d linked at level %d above its height", pos[n], lv)
+			}
+			f := n.level[lv].forward
+			if f != nil {
+				p, ok := pos[f]
+				if !ok {
+					return fmt.Errorf("level %d links to a node not in the chain", lv)
+				}
+				if n.level[lv].span != p-pos[n] {
+					return fmt.Errorf("span at level %d rank %d is %d, distance %d", lv, pos[n], n.level[lv].span, p-pos[n])
+				}
+			}
+			n = f
+		}
+	}
+	return nil
+}
+
+// VerifChain returns the level-0 chain in order.
+func (sortedSet *SortedSet) VerifChain() []Item {
+	var out []Item
+	for n := sortedSet.skiplist.header.level[0].forward; n != nil; n = n.level[0].forward {
+		out = append(out, n.Item)
+	}
+	return out
+}
+
+// VerifDict returns the dictionary in member order.
+func (sortedSet *SortedSet) VerifDict() []Item {
+	var out []Item
+	sortedSet.dict.Scan(func(_ string, v *Item) bool {
+		out = append(out, *v)
+		return true
+	})
+	return out
+}
